@@ -22,7 +22,10 @@ EXPLANATION = (
     "short-circuit order of guards, loop test, else clause and the iterator wrapper's __next__; "
     "C05-R4 each block is lowered under the (counter, flag) pair of the owner Python prescribes, "
     "the loop stack is popped between body and else; C05-R5 iteration accounting; C05-IB structural "
-    "validation of _iter_branch on a generic three-statement block (order, nesting, polarity)."
+    "validation of _iter_branch on a generic three-statement block (order, nesting, polarity), a "
+    "pruning oracle on [compound-or-simple statement, statement] (a statement is dropped only after "
+    "one that cannot complete normally) and the strict, refreshed counter comparison; C05-R4 also "
+    "requires the counter getter to read the volatile counter when polled (no captured snapshot)."
 )
 ASSUMPTIONS = [
     "the guard-insertion algorithm is validated structurally only, not proved for every nesting",
